@@ -73,3 +73,20 @@ contract("C20.split_group", file=TE, func="TemporalEvent._split_group",
              "implies(all(not " + ISDUR + "(_iter0[k]) for k in range(_n)), self.end_time == old(self.end_time))",
          ]}},
          assume=["value_as_default_unit() of a child is the view dur_value (C11 contracts); contents.remove() is an unmodelled method of the group"])
+
+# C20 (and "gives the same answer every time"): a filtered view never touches the manager's stored annotations - the object handed to the
+# in-place tag splitters is a HedString allocated by this call
+SU20 = "hed/models/string_util.py"
+OWN = ["the in-place splitters are only ever given an object allocated by the caller's own call (requires fresh(...), discharged at call sites)"]
+contract("C20.split_base_tags", file=SU20, func="split_base_tags",
+         params={"hed_string": "HedString", "base_tags": "Opaque", "remove_group": "Opaque"}, returns="Tuple[HedString,Opaque]", enc="native",
+         trusted=True, requires=["fresh(hed_string)"], ensures={"same_object": "result[0] is hed_string"}, assume=OWN)
+contract("C20.split_def_tags", file=SU20, func="split_def_tags",
+         params={"hed_string": "HedString", "def_names": "Opaque", "remove_group": "Opaque"}, returns="Tuple[HedString,Opaque]", enc="native",
+         trusted=True, requires=["fresh(hed_string)"], ensures={"same_object": "result[0] is hed_string"}, assume=OWN)
+class_model("EventManagerF", {"hed_schema": "Opaque", "def_dict": "Opaque"})
+contract("C20.filter_hed_works_on_a_copy", file=EM, func="EventManager._filter_hed",
+         params={"self": "EventManagerF", "hed": "HedString", "remove_types": "Opaque", "remove_defs": "Opaque", "remove_group": "Opaque"},
+         returns="Str", enc="native", self_class="EventManagerF",
+         ensures={"C20.filter.stored_annotation_text_unchanged": "hed.__str__ == old(hed.__str__)"},
+         assume=["only the HedString form of the argument is covered"])
